@@ -64,11 +64,34 @@ struct Shared {
     calls: AtomicU64,
 }
 
+/// number of threads this process has ever created: `pthread_create` is interposed (the symbol
+/// defined here shadows libc's for the whole executable) and forwards to the real one. A live
+/// thread count would miss a helper thread that is spawned and joined inside one call, and races
+/// with earlier threads still being reaped.
+static THREAD_CREATES: AtomicU64 = AtomicU64::new(0);
+
+type PthreadCreate = unsafe extern "C" fn(
+    *mut libc::pthread_t,
+    *const libc::pthread_attr_t,
+    extern "C" fn(*mut libc::c_void) -> *mut libc::c_void,
+    *mut libc::c_void,
+) -> libc::c_int;
+
+#[no_mangle]
+pub unsafe extern "C" fn pthread_create(
+    native: *mut libc::pthread_t,
+    attr: *const libc::pthread_attr_t,
+    f: extern "C" fn(*mut libc::c_void) -> *mut libc::c_void,
+    value: *mut libc::c_void,
+) -> libc::c_int {
+    THREAD_CREATES.fetch_add(1, SeqCst);
+    let real = libc::dlsym(libc::RTLD_NEXT, b"pthread_create\0".as_ptr() as *const libc::c_char);
+    let real: PthreadCreate = std::mem::transmute(real);
+    real(native, attr, f, value)
+}
+
 fn os_threads() -> u64 {
-    std::fs::read_to_string("/proc/self/status")
-        .ok()
-        .and_then(|s| s.lines().find(|l| l.starts_with("Threads:")).and_then(|l| l.split_whitespace().nth(1).and_then(|x| x.parse().ok())))
-        .unwrap_or(0)
+    THREAD_CREATES.load(SeqCst)
 }
 
 fn props(n: u8) -> Vec<(String, String)> {
@@ -78,7 +101,7 @@ fn props(n: u8) -> Vec<(String, String)> {
 
 fn exec(sh: &Shared, stack: &mut Vec<LocalH>, i: usize, op: &Op) {
     let mut slots = sh.slots.lock().unwrap();
-    let mut problem = |m: String| sh.problems.lock().unwrap().push(format!("op #{i} {op:?}: {m}"));
+    let problem = |m: String| sh.problems.lock().unwrap().push(format!("op #{i} {op:?}: {m}"));
     sh.calls.fetch_add(1, SeqCst);
     macro_rules! span {
         ($s:expr) => {
@@ -92,10 +115,9 @@ fn exec(sh: &Shared, stack: &mut Vec<LocalH>, i: usize, op: &Op) {
         Op::SetReporter { cancelable, interval_ns } => {
             let before = os_threads();
             fastrace::set_reporter(Rep, Config::default().cancelable(*cancelable).report_interval(Duration::from_nanos(*interval_ns)));
-            std::thread::sleep(Duration::from_millis(1));
             let after = os_threads();
             if after != before {
-                problem(format!("set_reporter changed the number of OS threads from {before} to {after}"));
+                problem(format!("set_reporter created {} thread(s)", after - before));
             }
         }
         Op::Flush => {
@@ -103,7 +125,7 @@ fn exec(sh: &Shared, stack: &mut Vec<LocalH>, i: usize, op: &Op) {
             fastrace::flush();
             let after = os_threads();
             if after != before {
-                problem(format!("flush changed the number of OS threads from {before} to {after}"));
+                problem(format!("flush created {} thread(s)", after - before));
             }
         }
         Op::Root { slot, trace, props: n } => {
@@ -291,11 +313,15 @@ fn run_case(case: &Case) -> Vec<String> {
         let sh = sh.clone();
         handles.push(std::thread::spawn(move || worker(sh, t as u8)));
     }
+    let creates_before = os_threads();
     worker(sh.clone(), 0);
     for h in handles {
         let _ = h.join();
     }
     let mut problems = sh.problems.lock().unwrap().clone();
+    if os_threads() != creates_before {
+        problems.push(format!("{} thread(s) were created while the program ran", os_threads() - creates_before));
+    }
     if REPORT_CALLS.load(SeqCst) != reports_before {
         problems.push("the reporter was called".into());
     }
@@ -363,7 +389,7 @@ fn main() {
         "operations": ops,
         "report_calls": REPORT_CALLS.load(SeqCst),
         "closure_calls": CLOSURE_CALLS.load(SeqCst),
-        "os_threads_at_end": os_threads(),
+        "threads_ever_created_by_the_process": os_threads(),
         "violations": violations,
         "sample": sample,
         "wall_s": t0.elapsed().as_secs_f64(),
